@@ -113,4 +113,10 @@ Definition dispatch (req : sx) : sx :=
   else if op =? "model_hist_rel" then   (* le is64 em rela img off size hist *)
     sx_answers sx_entry (rel_hist (rel_struct (gbool a1) (gbool a2) (is_mips (gI a3)) (gbool a4))
                                   (gB a5) (gI a6) (gI a7) (g_hist (nthx 8 l)))
+  else if op =? "model_dwarf_seq" then  (* le is64 em img secs secidx flags -> ((results...) image-unchanged) *)
+    let secs := g_secs a5 in
+    let img := gB a4 in
+    let r := dwarf_calls (gbool a1) (gbool a2) (gI a3) secs (nth_sec secs (gI a6)) (mkElfObj img) (map gbool (gL a7)) in
+    SL [SL (map (sx_res SB) (fst r));
+        sx_bool (bytes_eqb (eo_stream (snd r)) img)]
   else sx_err "unknown-op".
